@@ -25,8 +25,8 @@ import warnings
 from harness import core, tlc, tlaval, sweeps
 
 SWEEP_INV = ['TypeOK', 'FreshEnvs', 'FreshWindow', 'AgeRule', 'BoundaryKept', 'NoCrash', 'SweepCoversAllBonds',
-             'NoRecompute', 'MemoryBound']
-SOLV_INV = ['EigenCert', 'ClassicalCert', 'FrustrationFreeCert', 'CellCert', 'EffHCert', 'Expected']
+             'NoRecompute', 'MemoryBound', 'ReturnedCanonical']
+SOLV_INV = ['EigenCert', 'ClassicalCert', 'FrustrationFreeCert', 'CellCert', 'EffHCert', 'TwistCert', 'Expected']
 WORKERS = int(os.environ.get('VERIF_WORKERS', '8'))
 
 
@@ -167,7 +167,7 @@ def run_engine_traced(rec, rc):
     return E, eng, exc
 
 
-ENV_INV = ['EnvTypeOK', 'FreshEnvs', 'AgeRule', 'BoundaryKept', 'NoCrash']
+ENV_INV = ['EnvTypeOK', 'FreshEnvs', 'AgeRule', 'BoundaryKept', 'NoCrash', 'ReturnedCanonical']
 
 
 def validate_traces(ctx, events, runs_by_tid, label, spec='TraceSpec', count=True, invariants=None):
@@ -285,7 +285,16 @@ def stage_trace(ctx):
                 for tid in range(tid_before + 1, rec.ntraces + 1):
                     aborted.add(tid)
                 if rec.cur is not None:
-                    rec.cur.closed = True
+                    rec.cur.closed = rec.cur.ended = True
+            if exc is None and eng is not None:
+                # postcondition of run() (ReturnedCanonical, evaluated on the floats): norm error <= norm_tol_final
+                import numpy as np
+                nerr = float(np.linalg.norm(eng.psi.norm_test()))
+                ctx.case(('trace-post', rc['key']), action='Trace.returned_canonical')
+                if not nerr <= 1e-9:
+                    ctx.violation(dict(kind='postcondition', stage='trace', clause='returned-state-canonical',
+                                       engine='TwoSite' if rc['n'] == 2 else 'SingleSite', bc=rc['bc'], mix=rc['mix'],
+                                       combine=rc['combine']), dict(run=rc, norm_err=nerr))
             if nrun == 3:
                 ev = [e for e in rec.events if e['tid'] == rec.ntraces][:14]
                 ctx.sample(dict(spec='TraceSweep', run=rc['key'], first_events=[
@@ -310,7 +319,7 @@ def stage_trace(ctx):
                     for tid in range(tid_before + 1, rec.ntraces + 1):
                         aborted.add(tid)
                     if rec.cur is not None:
-                        rec.cur.closed = True
+                        rec.cur.closed = rec.cur.ended = True
     finally:
         rec.uninstall()
     events = rec.take()
@@ -337,8 +346,8 @@ def stage_trace(ctx):
 # ================================================================================================
 # (2) certified exactly solvable instances: MC + replay of the real engines
 # ================================================================================================
-def solv_cfg(fams, Ls, nvar):
-    return dict(spec='Spec', constants=dict(Fams=set(fams), Ls=set(Ls), NVar=nvar), invariants=SOLV_INV)
+def solv_cfg(fams, Ls, nvar, twists=(0,)):
+    return dict(spec='Spec', constants=dict(Fams=set(fams), Ls=set(Ls), NVar=nvar, Twists=set(twists)), invariants=SOLV_INV)
 
 
 def load_instances(ctx, name, cfg):
@@ -353,7 +362,7 @@ def load_instances(ctx, name, cfg):
         shutil.rmtree(d, ignore_errors=True)
     if not insts:
         raise core.MachineryError('Solvable: no instance built')
-    insts.sort(key=lambda I: (I['fam'], I['L'], I['nup'], I['var']))
+    insts.sort(key=lambda I: (I['fam'], I['L'], I['nup'], I['var'], I.get('twk', 0)))
     for I in insts:      # TLC prints a function with domain 1..n as a sequence: nothing to convert
         pass
     return insts
@@ -366,6 +375,7 @@ def build_term_model(inst, conserve='Sz', explicit_plus_hc=False, infinite=False
     from tenpy.networks.site import SpinHalfSite
     terms = inst['cell'] if infinite else inst['terms']
     ncell = 2
+    tw = list(inst.get('tw') or [0] * inst['L'])      # gauge twist: S+_i S-_j -> i^(tw[i]-tw[j]) S+_i S-_j
 
     class TermModel(CouplingMPOModel):
         def init_sites(self, model_params):
@@ -374,10 +384,12 @@ def build_term_model(inst, conserve='Sz', explicit_plus_hc=False, infinite=False
         def init_terms(self, model_params):
             def heis(c, i, j):
                 i, j = min(i, j), max(i, j)
+                ph = (tw[i] - tw[j]) % 4
+                phase = [1., 1.j, -1., -1.j][ph]
                 if infinite and i >= ncell:      # sum over all unit cells: a translate of the same term
                     i, j = i - ncell, j - ncell
                 self.add_coupling_term(c, i, j, 'Sz', 'Sz')
-                self.add_coupling_term(c / 2., i, j, 'Sp', 'Sm', plus_hc=True)
+                self.add_coupling_term(c / 2. * phase, i, j, 'Sp', 'Sm', plus_hc=True)
             for t in terms:
                 k, c = t['k'], float(t['c'])
                 if c == 0:
@@ -457,8 +469,11 @@ ENGINE_MATRIX = [
     (1, 'sub', 'lanczos', True, 'full', False, 'conv', None),
     (1, 'dm', 'default', False, 'full', False, 'conv', None),
     (1, 'none', 'ED_block', False, 'full', False, 'conv', None),
+    (2, 'none', 'ED_block', True, 'full', False, 'conv', None),
     (1, 'sub', 'arpack', False, 'trunc', False, 'conv', None),
     (1, 'sub', 'default', False, 'full', True, 'conv', None),
+    (1, 'dm', 'default', False, 'full', True, 'conv', None),
+    (1, 'dm', 'lanczos', True, 'full', True, 'conv', None),
     (2, 'sub', 'lanczos', False, 'full', True, 'conv', None),
     (1, 'sub', 'ED_block', True, 'trunc', True, 'short', None),
     (1, 'none', 'lanczos', True, 'full', False, 'conv', None),
@@ -498,9 +513,9 @@ def solvable_case(ctx, inst, ecfg, s0, origin):
     E0 = inst['E0x4'] / 4.0
     q = 2 * inst['nup'] - L
     sig0 = dict(kind='replay', spec='Solvable', fam=inst['fam'], engine='TwoSite' if n == 2 else 'SingleSite', mix=mix,
-                diag=diag, combine=combine, chi=chimode, explicit_plus_hc=hc, length=length, E_shift=(eshift is not None),
+                diag=diag, combine=combine, chi=chimode, explicit_plus_hc=hc, length=length, E_shift=(eshift is not None), complex_H=(inst['twk'] != 0),
                 E0zero=(inst['E0x4'] == 0))
-    detail0 = dict(instance=tlaval.to_jsonable({k: inst[k] for k in ('fam', 'L', 'nup', 'var', 'terms', 'E0x4', 'nondeg', 'conn')}),
+    detail0 = dict(instance=tlaval.to_jsonable({k: inst[k] for k in ('fam', 'L', 'nup', 'var', 'twk', 'tw', 'terms', 'E0x4', 'nondeg', 'conn')}),
                    engine_cfg=list(ecfg), start=s0, origin=origin)
     M = build_term_model(inst, explicit_plus_hc=hc)
     psi = MPS.from_product_state(M.lat.mps_sites(), ['up' if (s0 >> i) & 1 else 'down' for i in range(L)], bc='finite')
@@ -519,7 +534,7 @@ def solvable_case(ctx, inst, ecfg, s0, origin):
         opts['trunc_params'] = dict(svd_min=1e-14)
         opts['chi_list'] = {0: 2, 3: 3, 6: 2 ** (L // 2) + 4}
     cls = dmrg.TwoSiteDMRGEngine if n == 2 else dmrg.SingleSiteDMRGEngine
-    key = ('solv', inst['fam'], L, inst['nup'], inst['var'], ecfg, s0)
+    key = ('solv', inst['fam'], L, inst['nup'], inst['var'], inst['twk'], ecfg, s0)
     try:
         with warnings.catch_warnings():
             warnings.simplefilter('ignore')
@@ -584,15 +599,15 @@ def solvable_case(ctx, inst, ecfg, s0, origin):
             fail('P4-below-ground-state', expectation=EH)
     # P5 exact ground state reached
     v0 = dict(zip(inst['basis'], inst['v'])).get(s0, 0)
-    if (n == 2 and mix != 'none' and chimode in ('full', 'list') and diag != 'ED_all' and inst['conn'] and length == 'conv'
+    if (mix != 'none' and chimode in ('full', 'list') and diag != 'ED_all' and inst['conn'] and length == 'conv'
             and (v0 != 0 or diag == 'ED_block')):
         ctx.case(key + ('P5',), action='Solvable.P5')
         if not abs(EH - E0) <= tol:
             fail('P5-energy-not-reached', expectation=EH)
         elif inst['nondeg']:
             amp = dense_amplitudes(psi)
-            ov = sum(v * amp.get(s, 0.0) for s, v in zip(inst['basis'], inst['v']))
-            vv = float(sum(v * v for v in inst['v']))
+            ov = sum(complex(a, -b) * amp.get(s, 0.0) for s, (a, b) in zip(inst['basis'], inst['vc']))   # <v|psi>
+            vv = float(sum(a * a + b * b for a, b in inst['vc']))
             if not abs(abs(ov) ** 2 - vv) <= 1e-8 * vv * 10:
                 fail('P5-state-not-reached', overlap2=abs(ov) ** 2, vv=vv)
     return ok
@@ -624,10 +639,11 @@ def infinite_case(ctx, inst, icfg, origin):
     scale = max(1.0, sum(abs(t['c']) * (3 if t['k'] == 'p32' else 1) for t in inst['cell']))
     e0 = inst['E0cellx4'] / 8.0
     sig0 = dict(kind='replay', spec='Solvable', fam='chain2-infinite', engine=ename, mix=mix, conserve=str(conserve),
+                complex_H=(inst['twk'] != 0),
                 update_env=nchk // 2, explicit_plus_hc=hc, E_shift=(eshift is not None))
-    detail0 = dict(instance=tlaval.to_jsonable({k: inst[k] for k in ('fam', 'L', 'nup', 'var', 'cell', 'E0cellx4')}),
+    detail0 = dict(instance=tlaval.to_jsonable({k: inst[k] for k in ('fam', 'L', 'nup', 'var', 'twk', 'tw', 'cell', 'E0cellx4')}),
                    engine_cfg=list(icfg), origin=origin)
-    key = ('inf', inst['var'], icfg)
+    key = ('inf', inst['var'], inst['twk'], icfg)
     M = build_term_model(inst, conserve=conserve, explicit_plus_hc=hc, infinite=True)
     try:
         with warnings.catch_warnings():
@@ -683,8 +699,10 @@ def infinite_case(ctx, inst, icfg, origin):
 
 def stage_infinite(ctx, insts, rng):
     quick = ctx.tier == 'quick'
-    pool = [I for I in insts if I['fam'] == 'chain2' and I['L'] == 6]
+    pool = [I for I in insts if I['fam'] == 'chain2' and I['L'] == 6 and I['twk'] in (0, 1)]   # translation invariant twists
     rng.shuffle(pool)
+    pool.sort(key=lambda I: I['twk'] != 1)          # complex Hamiltonians first, then real ones
+    pool = pool[:1] + [I for I in pool[1:] if I['twk'] == 0][:1] + pool[1:]
     nrun = nok = 0
     for j, inst in enumerate(pool[:2 if quick else 6]):
         cfgs = list(INF_ENGINES)
@@ -703,23 +721,27 @@ def stage_solvable(ctx):
     quick = ctx.tier == 'quick'
     rng = random.Random(2000 + ctx.seed)
     if quick:
-        insts = load_instances(ctx, 'Solvable(L in 4..6)', solv_cfg({'classical', 'dimer', 'mg', 'ferro', 'chain2'}, {4, 5, 6}, 3))
+        insts = load_instances(ctx, 'Solvable(L in 4..6)', solv_cfg({'classical', 'dimer', 'mg', 'ferro', 'chain2'}, {4, 5, 6}, 3, twists=(0, 1)))
         per_fam = dict(classical=3, dimer=2, mg=2, ferro=5, chain2=2)
         n_cfg = 4
     else:
-        insts = load_instances(ctx, 'Solvable(L in 3..6)', solv_cfg({'classical', 'dimer', 'mg', 'ferro', 'chain2'}, {3, 4, 5, 6}, 6))
-        insts += load_instances(ctx, 'Solvable(L=8)', solv_cfg({'dimer', 'mg', 'ferro'}, {8}, 2))
+        insts = load_instances(ctx, 'Solvable(L in 3..6)', solv_cfg({'classical', 'dimer', 'mg', 'ferro', 'chain2'}, {3, 4, 5, 6}, 6, twists=(0, 1, 2)))
+        insts += load_instances(ctx, 'Solvable(L=8)', solv_cfg({'dimer', 'mg', 'ferro'}, {8}, 2, twists=(0, 1)))
         per_fam = dict(classical=30, dimer=12, mg=10, ferro=40, chain2=8)
         n_cfg = 6
     ctx.notes['solvable_instances_certified'] = len(insts)
     chosen = []
     for fam, cnt in per_fam.items():
         pool = [I for I in insts if I['fam'] == fam and not (fam == 'classical' and I['nup'] in (0, I['L']))]
+        rng.shuffle(pool)
         if fam == 'classical':   # ... plus one fully polarised (one-dimensional) sector
             onedim = [I for I in insts if I['fam'] == fam and I['nup'] in (0, I['L'])]
             rng.shuffle(onedim)
             pool = onedim[:1] + pool
-        rng.shuffle(pool)
+        else:                    # alternate complex (twisted) and real Hamiltonians
+            tw_ = [I for I in pool if I['twk'] != 0]
+            re_ = [I for I in pool if I['twk'] == 0]
+            pool = [x for pair in zip(tw_, re_) for x in pair] + tw_[len(re_):] + re_[len(tw_):]
         chosen += pool[:cnt]
     nrun = nok = 0
     for j, inst in enumerate(chosen):
@@ -729,7 +751,11 @@ def stage_solvable(ctx):
         p5 = [c for c in ENGINE_MATRIX if c[0] == 2 and c[1] != 'none' and c[4] != 'trunc' and c[2] != 'ED_all' and c[6] == 'conv']
         short = [c for c in ENGINE_MATRIX if c[6] == 'short' and c[7] is None]
         shifted = [c for c in ENGINE_MATRIX if c[7] is not None]
-        cfgs = [rng.choice(p5), rng.choice(short), rng.choice(shifted)] + [c for c in cfgs[:n_cfg - 3]]
+        # exact diagonalisation of the effective Hamiltonian without mixer (for complex H from a real product state)
+        edpath = [c for c in ENGINE_MATRIX if c[1] == 'none' and c[2] in ('default', 'ED_block') and c[4] == 'full'
+                  and c[6] == 'conv' and not c[5]]
+        extra = [rng.choice(edpath)] if inst['twk'] != 0 else cfgs[:1]
+        cfgs = [rng.choice(p5), rng.choice(short), rng.choice(shifted)] + extra + [c for c in cfgs[1:n_cfg - 3]]
         for ecfg in cfgs:
             for s0 in product_states(inst, rng, 1 if quick else 2):
                 nrun += 1
@@ -948,7 +974,7 @@ def replay(ctx, path):
     det, sig = doc['detail'], doc['signature']
     if sig.get('spec') == 'Solvable' and sig.get('fam') not in ('effH', 'chain2-infinite'):
         inst = det['instance']
-        insts = load_instances(ctx, 'Solvable(replay)', solv_cfg({inst['fam']}, {inst['L']}, inst['var'] + 1))
+        insts = load_instances(ctx, 'Solvable(replay)', solv_cfg({inst['fam']}, {inst['L']}, inst['var'] + 1, twists=(inst.get('twk', 0),)))
         I = [x for x in insts if (x['fam'], x['L'], x['nup'], x['var']) == (inst['fam'], inst['L'], inst['nup'], inst['var'])][0]
         solvable_case(ctx, I, tuple(det['engine_cfg']), det['start'], 'replay')
         ctx.trace_ok(1)
@@ -958,7 +984,7 @@ def replay(ctx, path):
         ctx.trace_ok(1)
     elif sig.get('fam') == 'chain2-infinite':
         inst = det['instance']
-        insts = load_instances(ctx, 'Solvable(replay)', solv_cfg({'chain2'}, {inst['L']}, inst['var'] + 1))
+        insts = load_instances(ctx, 'Solvable(replay)', solv_cfg({'chain2'}, {inst['L']}, inst['var'] + 1, twists=(inst.get('twk', 0),)))
         I = [x for x in insts if x['var'] == inst['var']][0]
         infinite_case(ctx, I, tuple(det['engine_cfg']), 'replay')
         ctx.trace_ok(1)
